@@ -1,5 +1,7 @@
 //! C12 — for/everyg is the conjunction of its body over the collection.
 use super::common::*;
+use super::surface::*;
+use crate::emit::Naming;
 use crate::ast::*;
 use crate::canon::*;
 use crate::framework::*;
@@ -49,6 +51,68 @@ fn body_goal(rng: &mut Rng, depth: usize) -> G {
     }
 }
 
+/// `prefix, for x in coll { clauses }, suffix` and its explicit-conjunction twin.
+/// Body goals that mention only the loop variable and constants. In surface syntax the body of
+/// `for` is a non-`move` closure boxed as `'static`, so a body that mentions a logic variable of
+/// the enclosing scope does not compile (E0597); such programs are outside the surface lane. The
+/// collection expression is evaluated outside that closure and may mention any variable in scope.
+fn closed_body_goal(rng: &mut Rng, depth: usize) -> G {
+    match rng.below(7) {
+        0 => G::Eq(v(X), k(rng)),
+        1 | 2 => G::Call(Rel::Member, vec![v(X), T::list((0..2 + rng.below(3)).map(|_| k(rng)).collect())]),
+        3 => G::Diseq(v(X), k(rng)),
+        4 => G::Conde(vec![vec![G::Eq(v(X), k(rng))], vec![G::Eq(v(X), k(rng))]]),
+        5 if depth > 0 => G::Conj(vec![closed_body_goal(rng, depth - 1), closed_body_goal(rng, depth - 1), closed_body_goal(rng, depth - 1)]),
+        _ => G::Diseq(v(X), T::list(vec![k(rng)])),
+    }
+}
+
+fn for_program(rng: &mut Rng, closed: bool) -> (Program, Program, usize, CollKind, bool, Vec<T>) {
+    let n = match rng.below(8) {
+        0 => 0,
+        x => 1 + (x as usize - 1) % 5,
+    };
+    let coll: Vec<T> = (0..n).map(|_| elem(rng)).collect();
+    let kind = if rng.chance(1, 2) { CollKind::Vec } else { CollKind::List };
+    let nclauses = 1 + rng.below(2);
+    let clauses: Vec<Vec<G>> = (0..nclauses).map(|_| (0..1 + rng.below(2)).map(|_| if closed { closed_body_goal(rng, 1) } else { body_goal(rng, 1) }).collect()).collect();
+    let (prefix, multi): (Vec<G>, bool) = match rng.below(5) {
+        0 => (vec![G::Conde(vec![vec![G::Eq(v(A), k(rng))], vec![G::Eq(v(A), k(rng))], vec![G::Eq(v(A), k(rng)), G::Eq(v(B), k(rng))]])], true),
+        1 => (vec![G::Call(Rel::Member, vec![v(A), T::list(vec![T::Int(1), T::Int(2), T::Int(3)])])], true),
+        2 => (vec![G::Eq(v(A), k(rng))], false),
+        3 => (vec![G::Call(Rel::Member, vec![v(A), T::list(vec![T::Int(1), T::Int(2)])]), G::Call(Rel::Member, vec![v(B), T::list(vec![T::Int(2), T::Int(3)])])], true),
+        _ => (vec![], false),
+    };
+    let suffix: Vec<G> = if rng.chance(1, 3) { vec![G::Eq(v(Q1), T::list(vec![v(A), v(B)]))] } else { vec![] };
+    let wrap = |mid: Vec<G>| -> Program {
+        let mut b = prefix.clone();
+        b.extend(mid);
+        b.extend(suffix.iter().cloned());
+        Program::new(vec![Q0, Q1], vec![G::Fresh(vec![A, B], b)])
+    };
+    let prog = wrap(vec![G::For(X, kind, coll.clone(), clauses.clone())]);
+    let explicit: Vec<G> = coll.iter().flat_map(|c| clauses.iter().flat_map(move |cl| cl.iter().map(move |g| g.subst_var(X, c)))).collect();
+    let eprog = wrap(if explicit.is_empty() { vec![G::Succeed] } else { explicit });
+    (prog, eprog, n, kind, multi, coll)
+}
+
+impl C12 {
+    /// The same programs written in SURFACE syntax and compiled: `for x in &coll { .. }` with the
+    /// collection a Rust value (ground) or an expression over the logic variables in scope.
+    fn surface_cases(tier: Tier, seed: u64) -> Vec<SurfCase> {
+        let n = if tier == Tier::Thorough { 2500 } else { 160 };
+        let mut cases = vec![];
+        let mut i = 0u64;
+        while cases.len() < n && i < 20 * n as u64 {
+            let mut rng = Rng::for_case(seed, "c12-surface", i);
+            i += 1;
+            let (prog, _e, _n, _k, _m, _c) = for_program(&mut rng, true);
+            cases.push(SurfCase { prog, naming: if i % 2 == 0 { Naming::Clash } else { Naming::Distinct }, twin_of: None, infinite: false, ordered: false, tag: "for" });
+        }
+        cases
+    }
+}
+
 impl Check for C12 {
     fn id(&self) -> &'static str {
         "C12"
@@ -57,7 +121,7 @@ impl Check for C12 {
         vec![GenSpec { name: "for", quick: 18_000, thorough: 600_000 }]
     }
     fn rule(&self) -> &'static str {
-        "Programs `|a, b| { prefix, for x in coll { body }, suffix }`: collections of 0-5 terms passed as an LTerm list or as a Vec<LTerm> (constants, duplicates, the variables a and b, a query variable, lists holding a), prefixes that bind a and b differently in several states (conde, member) so that the SAME for goal object is solved from more than one state, bodies of 1-2 clauses built from x == k, member(x, ..) (several answers), x != k, conde, q1 == [x], q0 == x, infd; optional suffix. Each program is compared, as a multiset of ground-instance sets, with the same program where the for goal is replaced by the explicit conjunction of body[x := c] over the elements (real vs real) and with the reference interpreter; an empty collection must behave exactly like `true`. Distinct = distinct program text; non-trivial = at least 1 element and at least one answer."
+        "Programs `|a, b| { prefix, for x in coll { body }, suffix }`: collections of 0-5 terms passed as an LTerm list or as a Vec<LTerm> (constants, duplicates, the variables a and b, a query variable, lists holding a), prefixes that bind a and b differently in several states (conde, member) so that the SAME for goal object is solved from more than one state, bodies of 1-2 clauses built from x == k, member(x, ..) (several answers), x != k, conde, q1 == [x], q0 == x, infd; optional suffix. Each program is compared, as a multiset of ground-instance sets, with the same program where the for goal is replaced by the explicit conjunction of body[x := c] over the elements (real vs real) and with the reference interpreter; an empty collection must behave exactly like `true`. Distinct = distinct program text; non-trivial = at least 1 element and at least one answer. A compiled lane writes `prefix, for x in &coll { clauses }, suffix` in surface syntax (collection a Rust value when ground, an in-place `lterm!`/`vec!` expression over the logic variables in scope otherwise; body goals over the loop variable and constants, incl. bracketed multi-goal clauses), compiles it against the current tree and compares the answers with the reference and the API-built twin."
     }
     fn assumptions(&self) -> Vec<String> {
         vec!["the explicit conjunction is built by substituting the element term for x in the body AST (bodies never rebind x)".into()]
@@ -69,36 +133,19 @@ impl Check for C12 {
         }
     }
     fn required_counters(&self) -> Vec<&'static str> {
-        vec!["explicit_conjunction_compared", "reference_compared", "empty_collections", "vec_collections", "list_collections", "for_goal_reached_by_several_states", "collections_with_variables"]
+        vec!["programs_compiled_and_run", "api_twin_compared", "explicit_conjunction_compared", "reference_compared", "empty_collections", "vec_collections", "list_collections", "for_goal_reached_by_several_states", "collections_with_variables"]
     }
-    fn run_case(&self, gen: &str, seed: u64, index: u64, _tier: Tier) -> CaseOut {
+    fn run_batch(&self, tier: Tier, seed: u64) -> Option<Merged> {
+        Some(run_surface_batch("C12", Self::surface_cases(tier, seed), vec![], seed, true))
+    }
+    fn run_case(&self, gen: &str, seed: u64, index: u64, tier: Tier) -> CaseOut {
+        if gen == "surface" {
+            return replay_case("C12", Self::surface_cases(tier, seed), index as usize, seed, true);
+        }
+        let _tier = tier;
         let mut out = CaseOut::default();
         let mut rng = Rng::for_case(seed, gen, index);
-        let n = match rng.below(8) {
-            0 => 0,
-            x => 1 + (x as usize - 1) % 5,
-        };
-        let coll: Vec<T> = (0..n).map(|_| elem(&mut rng)).collect();
-        let kind = if rng.chance(1, 2) { CollKind::Vec } else { CollKind::List };
-        let nclauses = 1 + rng.below(2);
-        let clauses: Vec<Vec<G>> = (0..nclauses).map(|_| (0..1 + rng.below(2)).map(|_| body_goal(&mut rng, 1)).collect()).collect();
-        let (prefix, multi): (Vec<G>, bool) = match rng.below(5) {
-            0 => (vec![G::Conde(vec![vec![G::Eq(v(A), k(&mut rng))], vec![G::Eq(v(A), k(&mut rng))], vec![G::Eq(v(A), k(&mut rng)), G::Eq(v(B), k(&mut rng))]])], true),
-            1 => (vec![G::Call(Rel::Member, vec![v(A), T::list(vec![T::Int(1), T::Int(2), T::Int(3)])])], true),
-            2 => (vec![G::Eq(v(A), k(&mut rng))], false),
-            3 => (vec![G::Call(Rel::Member, vec![v(A), T::list(vec![T::Int(1), T::Int(2)])]), G::Call(Rel::Member, vec![v(B), T::list(vec![T::Int(2), T::Int(3)])])], true),
-            _ => (vec![], false),
-        };
-        let suffix: Vec<G> = if rng.chance(1, 3) { vec![G::Eq(v(Q1), T::list(vec![v(A), v(B)]))] } else { vec![] };
-        let wrap = |mid: Vec<G>| -> Program {
-            let mut b = prefix.clone();
-            b.extend(mid);
-            b.extend(suffix.iter().cloned());
-            Program::new(vec![Q0, Q1], vec![G::Fresh(vec![A, B], b)])
-        };
-        let prog = wrap(vec![G::For(X, kind, coll.clone(), clauses.clone())]);
-        let explicit: Vec<G> = coll.iter().flat_map(|c| clauses.iter().flat_map(move |cl| cl.iter().map(move |g| g.subst_var(X, c)))).collect();
-        let eprog = wrap(if explicit.is_empty() { vec![G::Succeed] } else { explicit });
+        let (prog, eprog, n, kind, multi, coll) = for_program(&mut rng, false);
         let cfg = RunCfg { max_answers: 4000, step_budget: 600_000, extra_next: 1, display: true };
         let real = run_query(&prog, &cfg);
         out.count("programs", 1);
